@@ -1,6 +1,7 @@
 (* C02: inside the envelope a successful result is CLOSED (all four clauses).
-   Part A: facts of the envelope.  Part B: one dependency evaluated.  Part C: the
-   invariant of the dependency walk.  Part D: the top level. *)
+   Part A (this file): facts of the envelope.  Parts B-D (one dependency
+   evaluated, the invariant of the dependency walk, the top level) are in
+   Proofs/ResolveClosure2.v. *)
 From Apko Require Import Base.Prelude Base.Regex Generated.Regexes Generated.VersionConsts Generated.C03Version
   Model.Version Model.Resolver Spec.ResolveSpec
   Proofs.ResolveProofs Proofs.ResolveProofs2 Proofs.C14Proofs Proofs.ResolveTheorems Proofs.ResolveEnvelope.
